@@ -1,4 +1,5 @@
 import Liquid.Std
+import Proofs.ToLiquidLemmas
 import Proofs.PostLemmas
 import Proofs.RunLemmas
 import Proofs.ScopeLemmas
